@@ -267,6 +267,7 @@ func CoqEvents(r *Result) ([]string, map[string]int) {
 	markdead := map[int]int64{}
 	hasMark := map[int]bool{}
 	swapped := map[int64]bool{}
+	flagged := false
 	z := hx.Z
 	for _, e := range log {
 		x := e.Actor
@@ -361,8 +362,16 @@ func CoqEvents(r *Result) ([]string, map[string]int) {
 			emit("(EReady %s)", z(e.Key))
 		case "h.runexit":
 			emit("(ERunExit %s)", z(e.Key))
-		case "pool.close.flag":
-			emit("ECloseFlag")
+		case "pool.close.flagged": // logged inside c.mu, where the flag is set (exact order w.r.t. acquire regions)
+			if !flagged {
+				emit("ECloseFlag")
+				flagged = true
+			}
+		case "pool.close.flag": // logged after the unlock; only used for sources without the point above
+			if !flagged {
+				emit("ECloseFlag")
+				flagged = true
+			}
 		case "pool.close.cancel":
 			emit("ECloseCancel")
 		}
